@@ -1,1 +1,1 @@
-
+import FcpProps.C01
